@@ -111,13 +111,45 @@ Definition fs_rename (f : fs) (t p : str) : fs :=
   if str_eqb t p then f
   else fun q => if str_eqb q p then f t else if str_eqb q t then None else f q.
 
-(* every state a crash can leave behind while `save` runs: nothing done yet; temp created and any
-   prefix of the new content written to it; rename done *)
-Inductive save_state (f : fs) (p t : str) (content : bytes) : fs -> Prop :=
-| ss_before : save_state f p t content f
-| ss_partial : forall k, (k <= length content)%nat ->
-    save_state f p t content (fs_set f t (Some (firstn k content)))
-| ss_renamed : save_state f p t content (fs_rename (fs_set f t (Some content)) t p).
+(* The save protocol as the list of file-system steps found in the source (gen_save_steps_v3, gen_save_steps_quant):
+   0 create/truncate temp, 1 write the content to temp, 2 fsync temp, 3 unlink the target,
+   4 rename temp -> target, anything else = an unrecognised operation on the target (worst case:
+   the target is truncated). *)
+Definition sstep_fs (p t : str) (content : bytes) (f : fs) (s : N) : fs :=
+  match s with
+  | 0 => fs_set f t (Some [])
+  | 1 => fs_set f t (Some content)
+  | 2 => f
+  | 3 => fs_set f p None
+  | 4 => fs_rename f t p
+  | _ => fs_set f p (Some [])
+  end.
+Definition run_steps (p t : str) (content : bytes) (f : fs) (steps : list N) : fs :=
+  fold_left (sstep_fs p t content) steps f.
+
+(* every state a crash can leave behind while `save` runs: between any two steps, and inside a
+   write step with any prefix of the content in the temp file *)
+Inductive save_state (steps : list N) (f : fs) (p t : str) (content : bytes) : fs -> Prop :=
+| ss_between : forall n, save_state steps f p t content (run_steps p t content f (firstn n steps))
+| ss_partial : forall n k, nth_error steps n = Some 1 -> (k <= length content)%nat ->
+    save_state steps f p t content
+      (fs_set (run_steps p t content f (firstn n steps)) t (Some (firstn k content))).
+
+(* the protocol shape the atomicity theorem needs: only temp-file steps, the temp file complete at
+   the end, then exactly one rename as the last step *)
+Fixpoint temp_full (full : bool) (pre : list N) : bool :=
+  match pre with
+  | [] => full
+  | 0 :: r => temp_full false r
+  | 1 :: r => temp_full true r
+  | 2 :: r => temp_full full r
+  | _ => false
+  end.
+Definition steps_safe (steps : list N) : bool :=
+  match rev steps with
+  | l :: rpre => (l =? 4) && temp_full false (rev rpre)
+  | [] => false
+  end.
 
 (* ------------------------------------------------------------------ loading (libraries = parameters) *)
 Section Codec.
